@@ -106,7 +106,7 @@ def rbAllowed (phase : Nat) : List String :=
   -- before the swap the source's location map depends on which RW replica served the controller's
   -- widening reads, so it is not observed
   if phase = 1 then ["w", "r", "full", "rbreload", "rbend", "punch"]
-  else ["w", "r", "full", "holes", "loc", "meta", "imeta", "apply", "lunmap", "rbpromote", "rbend", "cands", "punch", "cmp"]
+  else ["w", "r", "full", "holes", "loc", "meta", "imeta", "apply", "lunmap", "rbpromote", "rbend", "cands", "punch", "cmp", "csnap"]
 
 partial def loop (h : IO.FS.Stream) (out : IO.FS.Stream) (r : Rep) : IO Unit := do
   let line ← h.getLine
@@ -121,6 +121,10 @@ partial def loop (h : IO.FS.Stream) (out : IO.FS.Stream) (r : Rep) : IO Unit := 
     match a.toNat?, b.toNat? with
     | some bs, some nb => out.putStrLn "ok"; loop h out (Rep.init bs nb)
     | _, _ => out.putStrLn "bad-op"; loop h out r
+  | ["csnap", n] =>   -- Controller.Snapshot while all three replicas are RW: a user snapshot on each
+    if r.rb ≠ 3 then do out.putStrLn "inadmissible"; loop h out r else
+    let (r', o) := r.step (.snap n true)
+    out.putStrLn (showOut o); loop h out r'
   | ["full"] =>
     let (r', o) := r.step (.read 0 (r.dd.nb * r.dd.bs))
     out.putStrLn (showOut o); loop h out r'
